@@ -133,14 +133,17 @@ SPACINGS = {"iso": 0.1, "aniso": [0.1, 0.2],
             # load_average has to round, not truncate
             "odd": [0.3, 0.7]}
 NAMES = {"img": "img", "none": None, "a b": "a b",
-         "unicode": "Probe_5\u00b5m K\u00fcgelchen"}
+         "unicode": "Probe_5\u00b5m K\u00fcgelchen",
+         # the name of one of the image's own axes (a frame loaded from
+         # x.png is called "x")
+         "axis-x": "x", "axis-ill": "illumination"}
 KINDS = ["none", "scalar", "dict", "array"]
 
 H5_AXES = {
     "shape": ["5x4x2", "4x5", "1x1", "2x3", "1x7", "3x3x3", "3x4x1"],
     "dtype": ["float64", "float32", "int16", "uint8"],
     "spacing": ["iso", "aniso"],
-    "name": ["img", "none", "a b", "unicode"],
+    "name": ["img", "none", "a b", "unicode", "axis-x", "axis-ill"],
     "target": ["ext", "noext"],
     "medium_index": KINDS, "illum_wavelen": KINDS,
     "illum_polarization": KINDS, "noise_sd": KINDS,
